@@ -47,3 +47,47 @@ package beacon
 //@   ensures[outside_before] e >= s ==> forall i in 0..s: !inwin(ts(b, i), fromTime, toTime)
 //@   ensures[outside_after] e >= s ==> forall i in e+1..len(b.treasuresByOrder): !inwin(ts(b, i), fromTime, toTime)
 //@   ensures[none] e < s ==> forall i in 0..len(b.treasuresByOrder): !inwin(ts(b, i), fromTime, toTime)
+
+// ---------------------------------------------------------------------------------------
+// Expiry-based claims. One definition everywhere (property C30):
+//   expired(exp, now)  :=  exp != 0 && exp < now        (0 means "never expires")
+//@ pure expired(x, now) = U_treasure_exp(x) != 0 && U_treasure_exp(x) < now
+
+// SelectExpiredForPatch: under the index lock, removes from the ordered index and returns at most
+// howMany records, each of which is expired at the sampled instant `now`; no expired record is
+// left behind while budget remains; nothing else disappears from the index.
+//@ func (*beacon).SelectExpiredForPatch(b, howMany) (out)
+//@   property C30 C11
+//@   nopanic
+//@   overflow: assumed
+//@   requires[records] forall i in 0..len(b.treasuresByOrder): b.treasuresByOrder[i] != nil
+//@   modifies *
+//@   loop 0 invariant[counter] counter == len(selected) && counter >= 0 && (counter > 0 ==> counter <= howMany)
+//@   loop 0 invariant[partition] len(selected) + len(remainingTreasures) == rangeindex + 1
+//@   loop 0 invariant[index_untouched] forall i in 0..len(b.treasuresByOrder): b.treasuresByOrder[i] == old(b.treasuresByOrder[i])
+//@   loop 0 invariant[outputs_private] (!isnil(selected) ==> fresh(selected)) && (!isnil(remainingTreasures) ==> fresh(remainingTreasures)) && (!isnil(selected) && !isnil(remainingTreasures) ==> sliceid(selected) != sliceid(remainingTreasures))
+//@   loop 0 invariant[selected_expired] forall i in 0..len(selected): expired(selected[i], now)
+//@   loop 0 invariant[skipped_only_without_budget] forall i in 0..len(remainingTreasures): expired(remainingTreasures[i], now) ==> counter >= howMany
+//@   csensures[at_most_requested] len(selected) <= max(howMany, 0)
+//@   csensures[only_expired] forall i in 0..len(selected): expired(selected[i], now)
+//@   csensures[no_expired_left_while_budget] forall i in 0..len(b.treasuresByOrder): expired(b.treasuresByOrder[i], now) ==> len(selected) >= howMany
+//@   csensures[nothing_lost] len(selected) + len(b.treasuresByOrder) == old(len(b.treasuresByOrder))
+
+// ShiftExpired: like SelectExpiredForPatch, but the claimed records are cloned and also removed
+// from the key map (so a concurrent claimer, which serialises on the same lock, cannot get them).
+//@ func (*beacon).ShiftExpired(b, howMany) (out)
+//@   property C30 C11
+//@   nopanic
+//@   overflow: assumed
+//@   requires[records] forall i in 0..len(b.treasuresByOrder): b.treasuresByOrder[i] != nil
+//@   modifies *
+//@   loop 0 invariant[counter] counter == len(shiftedTreasures) && counter >= 0 && (counter > 0 ==> counter <= howMany)
+//@   loop 0 invariant[partition] len(shiftedTreasures) + len(remainingTreasures) == rangeindex + 1
+//@   loop 0 invariant[index_untouched] forall i in 0..len(b.treasuresByOrder): b.treasuresByOrder[i] == old(b.treasuresByOrder[i])
+//@   loop 0 invariant[outputs_private] (!isnil(shiftedTreasures) ==> fresh(shiftedTreasures)) && (!isnil(remainingTreasures) ==> fresh(remainingTreasures)) && (!isnil(shiftedTreasures) && !isnil(remainingTreasures) ==> sliceid(shiftedTreasures) != sliceid(remainingTreasures))
+//@   loop 0 invariant[claimed_expired] forall i in 0..len(shiftedTreasures): expired(shiftedTreasures[i], now)
+//@   loop 0 invariant[skipped_only_without_budget] forall i in 0..len(remainingTreasures): expired(remainingTreasures[i], now) ==> counter >= howMany
+//@   csensures[at_most_requested] len(shiftedTreasures) <= max(howMany, 0)
+//@   csensures[only_expired] forall i in 0..len(shiftedTreasures): expired(shiftedTreasures[i], now)
+//@   csensures[no_expired_left_while_budget] forall i in 0..len(b.treasuresByOrder): expired(b.treasuresByOrder[i], now) ==> len(shiftedTreasures) >= howMany
+//@   csensures[nothing_lost] len(shiftedTreasures) + len(b.treasuresByOrder) == old(len(b.treasuresByOrder))
